@@ -8,6 +8,7 @@ import (
 	"os"
 	"runtime"
 	"strings"
+	"unicode"
 
 	"github.com/mattn/go-isatty"
 
@@ -218,7 +219,9 @@ Usage:
 	} else if len(args) == 0 {
 		arg = "."
 	} else {
-		arg, args, fname = strings.TrimSpace(args[0]), args[1:], "<arg>"
+		// keep the leading spaces and newlines so that the positions of
+		// errors refer to the query as it was given
+		arg, args, fname = strings.TrimRightFunc(args[0], unicode.IsSpace), args[1:], "<arg>"
 	}
 	if opts.ExitStatus {
 		cli.exitCodeError = &exitCodeError{exitCodeNoValueErr}
